@@ -356,6 +356,10 @@ Definition process_part (s : shared) (c : conn) (chs : list str) (reason : optio
   hr s' c o.
 
 (* ------------------------------------------------------------------ TOPIC *)
+(* may a member of rank [r] set the topic of [co] *)
+Definition topic_allowed (co : chan) (r : rank) : bool :=
+  negb (cm_protected_topic (ch_modes co)) || rk_is_half_operator r.
+
 Definition process_topic (s : shared) (c : conn) (ch : str) (topic : option str) (msg : message)
   : res hres :=
   let client := client_name c in
@@ -366,7 +370,7 @@ Definition process_topic (s : shared) (c : conn) (ch : str) (topic : option str)
       | Some co =>
           match ch_users co !! nick with
           | Some r =>
-              if negb (cm_protected_topic (ch_modes co)) || rk_is_half_operator r then
+              if topic_allowed co r then
                 let co' := ch_set_topic (if is_empty t then None else Some (t, nick)) co in
                 let s' := set_chans (fun cs => <[ch := co']> cs) s in
                 let! sent := send_all s' (member_names co')
@@ -459,31 +463,40 @@ Definition process_invite (s : shared) (c : conn) (nickname ch : str) (msg : mes
   end.
 
 (* ------------------------------------------------------------------ KICK *)
+(* may a member of rank [r] remove a member of rank [vr] *)
+Definition kickable (r vr : rank) : bool :=
+  negb (rk_is_protected vr) && (negb (rk_is_half_operator vr) || negb (rk_is_only_half_operator r)).
+
+(* the victim loop: victims to remove (each once) and replies *)
+Definition kick_select (co : chan) (r : rank) (client ch : str) (victims : list str)
+  : list str * list str :=
+  fold_left (fun '(k, o) v =>
+               match ch_users co !! v with
+               | Some vr =>
+                   if kickable r vr
+                   then (if mem_str v k then (k, o) else (k ++ [v], o))
+                   else (k, o ++ [err_cannotdocommand client])
+               | None => (k, o ++ [err_usernotinchannel client v ch])
+               end) victims ([], []).
+
+Definition kick_decide (s : shared) (nick client ch : str) (victims : list str)
+  : list str * list str :=
+  match chans s !! ch with
+  | Some co =>
+      match ch_users co !! nick with
+      | Some r =>
+          if rk_is_half_operator r then kick_select co r client ch victims
+          else ([], [err_chanoprivsneeded client ch])
+      | None => ([], [err_notonchannel client ch])
+      end
+  | None => ([], [err_nosuchchannel client ch])
+  end.
+
 Definition process_kick (s : shared) (c : conn) (ch : str) (victims : list str)
            (comment : option str) : res hres :=
   let client := client_name c in
   let! nick := own_nick c in
-  let '(kicked, o1) :=
-    match chans s !! ch with
-    | Some co =>
-        match ch_users co !! nick with
-        | Some r =>
-            if rk_is_half_operator r then
-              fold_left (fun '(k, o) v =>
-                           match ch_users co !! v with
-                           | Some vr =>
-                               if negb (rk_is_protected vr)
-                                  && (negb (rk_is_half_operator vr)
-                                      || negb (rk_is_only_half_operator r))
-                               then (if mem_str v k then (k, o) else (k ++ [v], o))
-                               else (k, o ++ [err_cannotdocommand client])
-                           | None => (k, o ++ [err_usernotinchannel client v ch])
-                           end) victims ([], [])
-            else ([], [err_chanoprivsneeded client ch])
-        | None => ([], [err_notonchannel client ch])
-        end
-    | None => ([], [err_nosuchchannel client ch])
-    end in
+  let '(kicked, o1) := kick_decide s nick client ch victims in
   let! s' := rfold (fun s v => st_remove_user_from_channel ch v s) kicked s in
   let! o2 := rfold (fun acc v =>
                       let line := from (c_source c)
